@@ -95,6 +95,9 @@ size_t approxBytesAllocatedSmallBufferImpl(size_t ordinal) {
 template <size_t kChunkSize>
 SmallBufferAllocator<kChunkSize>::PerThreadQueuingData::~PerThreadQueuingData() {
   enqueue_bulk(buffers_, count_);
+  // The cache is empty now.  Another thread_local destructor that runs after this one may still call
+  // alloc()/dealloc() on this thread; it must not pop the pointers that were just handed back.
+  count_ = 0;
 
   DISPENSO_TSAN_ANNOTATE_IGNORE_WRITES_BEGIN();
   ptoken().~ProducerToken();
